@@ -28,6 +28,8 @@ mod tests;
 
 #[cfg(feature = "verif-hooks")]
 pub(crate) use branch_updater::verif as verif_branch;
+#[cfg(feature = "verif-hooks")]
+pub(crate) use leaf_updater::verif as verif_leaf;
 
 // All nodes less than this body size will be merged with a neighboring node.
 const BRANCH_MERGE_THRESHOLD: usize = BRANCH_NODE_BODY_SIZE / 2;
@@ -43,6 +45,18 @@ const BRANCH_BULK_SPLIT_TARGET: usize = (BRANCH_NODE_BODY_SIZE * 3) / 4;
 const LEAF_MERGE_THRESHOLD: usize = LEAF_NODE_BODY_SIZE / 2;
 const LEAF_BULK_SPLIT_THRESHOLD: usize = (LEAF_NODE_BODY_SIZE * 9) / 5;
 const LEAF_BULK_SPLIT_TARGET: usize = (LEAF_NODE_BODY_SIZE * 3) / 4;
+
+/// Verification hook: the constants the leaf updater works with.
+#[cfg(feature = "verif-hooks")]
+pub(crate) fn verif_leaf_constants() -> (usize, usize, usize, usize, usize) {
+    (
+        LEAF_NODE_BODY_SIZE,
+        crate::beatree::leaf::node::MAX_LEAF_VALUE_SIZE,
+        LEAF_MERGE_THRESHOLD,
+        LEAF_BULK_SPLIT_THRESHOLD,
+        LEAF_BULK_SPLIT_TARGET,
+    )
+}
 
 /// Change the btree in the specified way. Updates the branch index in-place.
 ///
